@@ -76,6 +76,16 @@ def main():
             nk, len(chk.violations) - nk, chk._t()))
         return rc
     except AnalysisBroken as e:
+        # an anchor or a floor gave way *after* violations had been found (typically because of them): the violations are the result
+        try:
+            known = {(k.get("rule"), k.get("function"), k.get("key")) for k in report.load_known() if k.get("property") == pid}
+            new = [v for v in chk.violations if (v["rule"], v["function"], v["key"]) not in known]
+        except Exception:
+            new = []
+        if new and not a.replay:
+            print("note: the analysis stopped early (%s); reporting the violations found up to that point" % str(e)[:200])
+            os.environ["VERIF_NO_EVIDENCE"] = os.environ.get("VERIF_NO_EVIDENCE", "") or "1"
+            return chk.finish()
         return report.broken(pid, str(e))
     except Exception:
         traceback.print_exc()
